@@ -1909,9 +1909,10 @@ class AstEval:
                         raise TypeError(f"got multiple values for keyword argument '{key}'")
                     kwargs[key] = mapping[key]
             else:
+                val = await self.aeval(kw_arg.value)
                 if kw_arg.arg in kwargs:
                     raise TypeError(f"got multiple values for keyword argument '{kw_arg.arg}'")
-                kwargs[kw_arg.arg] = await self.aeval(kw_arg.value)
+                kwargs[kw_arg.arg] = val
         #
         # try to deduce function name, although this only works in simple cases
         #
